@@ -14,6 +14,25 @@ NOTE = ("Trusted: Lean 4.33 kernel; axioms of every listed theorem ⊆ {propext,
         "object identity and file I/O are modelled away (exact rationals on a dyadic grid, explicit iteration orders).")
 
 CLAIMS = {
+    "C06": dict(text="Proved for the model: at every `updated` state no task is NONE with its start gate open and no task is WORKING with no work left and "
+                     "its finish gate open (C06_ready_run, C06_finish_run, C06_finish_next); after check_state(WORKING) no component-free automatic task is "
+                     "READY, at every recorded step (C06_auto_run); idle-worker clause for tasks without facility: a worker still FREE and unassigned after "
+                     "the allocation pass cannot be added to any READY/WORKING non-automatic task it is skilled and targeted for (C06_idle, C06_idle_step, "
+                     "C06_idle_run). The worker-facility-pair form of the idle clause is NOT a theorem (search only).",
+                design="6 C06", technique="Lean 4 proof (post-conditions of the update block, fold argument over the allocation pass: refusals persist) + phase-level correspondence"),
+    "C09": dict(text="Proved for the model: with both initialisation flags the entered state, hence the whole result, does not depend on the previous "
+                     "state of the project at all — re-simulation, any earlier history of operations, or a fresh object give the same result "
+                     "(C09_enter_indep, C09_resim, C09_resim_twice, C09_history_indep, C09_function). Independence of the iteration order of the internal "
+                     "sets (C09Order) is being proved separately; the address/hash/process clause is inherently about the runtime and is validated by "
+                     "the stream (permuted task/component hashes, rebuilt objects, fresh processes with different PYTHONHASHSEED) — partial by nature.",
+                design="6 C09", technique="Lean 4 proof that initialisation overwrites every dynamic field (determinism) + real runs under permuted set-iteration orders and hash seeds"),
+    "C15": dict(text="Proved for the model as C15_partial: pausing at ANY k <= M and resuming with both initialisation flags off gives exactly the state of "
+                     "the uninterrupted run (whole-state equality: logs, costs, time, status, live state), for models in which no task has both a "
+                     "finish-gated (FF/SF) predecessor and an FS successor (GateOK; covers all FS/SS models and FF/SF models without that pattern), with "
+                     "work >= 0 and progress <= 1; rests on idempotence of the update block (C15_update_idem) and fuel/status irrelevance. Outside GateOK "
+                     "the wave PERT can read a stale value (machine-checked example) and the statement is validated by search only. The JSON variant is "
+                     "covered by the stream (write/read/resume) and C16.",
+                design="6 C15", technique="Lean 4 proof (idempotence of the update block, loop congruences) + pause/resume histories on the real code at every k"),
     "C02": dict(text="Proved for the model: perform subtracts exactly contrib from a WORKING task on an active step and leaves every other task alone (C02_perform); "
                      "under the allocation invariant contrib is the documented plain sum (divisor 1; an absent or unskilled member contributes 0: C02_contrib, "
                      "C02_contrib_zero); no other phase changes remaining work except check_finished clamping finished tasks to 0 (C02_frame, C02_chkFinished_rem); "
@@ -23,9 +42,10 @@ CLAIMS = {
                 design="6 C02", technique="Lean 4 proof (frame lemmas, fixpoint of the finish closure, log/trace bridge) + phase-level correspondence"),
     "C03": dict(text="Proved for the model: AllocInv (two-way consistency, at most one task per worker/facility, no duplicates, only READY/WORKING tasks hold) and "
                      "HoldWorking hold at every updated and ticked state, ResInv (state = ABSENCE if absent else WORKING iff assigned) at every ticked state "
-                     "(C03_trace, C03_updated, C03_run_partial), finished tasks hold nothing and their workers are detached (C03_released, "
-                     "C03_chkFinished_released). `_partial` = the run-level theorems assume the entry state is clean outside the index ranges (true of "
-                     "any real project; an artefact of total functions), with machine-checked counterexamples for the unguarded statements.",
+                     "(C03_trace, C03_updated, C03_run, C03_final), also when a used project is simulated again (C03_rerun'); finished tasks hold nothing and their "
+                     "workers are detached (C03_released, C03_chkFinished_released). Two per-phase statements are false without their natural context "
+                     "and are proved in the `_partial` form with machine-checked counterexamples (allocate needs FREE => unassigned; check_state(WORKING) "
+                     "needs that a holder has a worker).",
                 design="6 C03", technique="Lean 4 invariant proof (fold invariant of the allocation loop with the free-worker list) + phase-level correspondence"),
     "C04": dict(text="Proved for the model: EligInv (every held worker has positive skill, a targeting team, is in the fixed list; solo members alone; "
                      "worker/facility pairs by position with facility skill, targeting workplace, fixed list and operating skill; automatic tasks hold "
@@ -65,8 +85,10 @@ CLAIMS = {
                      "recorded state (C08_run_entry). Histories with backward simulation / log reversal are covered by C17/C18 checks, not here.",
                 design="6 C08", technique="Lean 4 invariant proof + refinement of logs to the state trace + correspondence on all log fields"),
     "C11": dict(text="Sorting half proved for the model for every rule mode: each sort is the unique stable permutation ordered by the documented "
-                     "key (C11_tasks/workers/facilities/workplaces, uniqueness in the *_generic theorems). The no-inversion clause is NOT yet a "
-                     "theorem: it is evaluated as a predicate on every real allocation pass (search only) — partial.",
+                     "key (C11_tasks/workers/facilities/workplaces, uniqueness in the *_generic theorems). No inversion: a worker newly given to a "
+                     "later task of the sorted list that is skilled and targeted for an earlier non-automatic, non-facility task could not be added "
+                     "to that earlier task at the end of the pass (C11_no_inversion, C11_no_inversion_step; 'earlier' = priority at least as high, "
+                     "C11_before_key). The pair form for facility tasks is not claimed.",
                 design="6 C11", technique="Lean 4 proof that the model's sort is the stable sort by the documented key + pure-function correspondence on arbitrary lists"),
     "C12": dict(text="Proved for the model: for every acyclic FS network, any time, any remaining-work vector ≥ 0 and ANY stale previous values, "
                      "the wave-front update returns the unique solution of the critical-path equations (C12, C12_unique, C12_eq_spec), slack ≥ 0 "
